@@ -558,9 +558,24 @@ func (t *tr) loopHead(k int, pos token.Pos, body func(), alias map[string]*Var) 
 		t.assume(t.spec(c.Expr, sc))
 	}
 	t.cover(fmt.Sprintf("loop%d-head", k), pos)
+	headEnv := t.cur.Env.clone()
+	t.loopHeadEnv[k] = headEnv
 	return func() {
 		if t.cur == nil {
 			return
+		}
+		// `loop k step [label:] P`: a relation between the state at the head of an iteration (at_head(e)) and the
+		// state at its back edge, asserted at the back edge
+		if t.u.Contract != nil {
+			for _, c := range t.u.Contract.Clauses {
+				if c.Kind != "loopstep" || c.Loop != k {
+					continue
+				}
+				sc := mkCtx()
+				sc.where = c.Where
+				t.loopHeadEnv[k] = headEnv
+				t.assert(t.spec(c.Expr, sc), fmt.Sprintf("loop-step/%d", k), c.Label, pos, "holds for every completed iteration: "+c.Text)
+			}
 		}
 		for _, c := range invs {
 			sc := mkCtx()
